@@ -102,6 +102,12 @@ var kinds = []kindT{
 	{"ptriface", func() interface{} { return ptrIface }},
 	{"ptrmap", func() interface{} { return ptrMap }},
 	{"ptrslice", func() interface{} { return ptrSlice }},
+	// empty and nil containers of typed Go slice / map types: of the same reflect kind as JSON's, equal to nothing but themselves
+	{"emptyintslice", func() interface{} { return []int{} }},
+	{"nilintslice", func() interface{} { return []int(nil) }},
+	{"emptystrslice", func() interface{} { return []string{} }},
+	{"emptyintmap", func() interface{} { return map[string]int{} }},
+	{"nilintmap", func() interface{} { return map[string]int(nil) }},
 	// an unnamed struct type: its name is its whole declaration, field tags (and whatever characters they hold) included
 	{"tagstruct", func() interface{} {
 		return struct {
@@ -142,7 +148,14 @@ func opaqueID(v interface{}) int {
 		}
 		switch t.Kind() {
 		case reflect.Func, reflect.Chan, reflect.Ptr, reflect.Map, reflect.Slice:
-			if t.Kind() == reflect.Slice || t.Kind() == reflect.Map || t.Kind() == reflect.Func {
+			if t.Kind() == reflect.Slice || t.Kind() == reflect.Map {
+				// one kind per such type, length and nil-ness
+				if reflect.ValueOf(w).Len() == reflect.ValueOf(v).Len() && reflect.ValueOf(w).IsNil() == reflect.ValueOf(v).IsNil() {
+					return i + 1
+				}
+				continue
+			}
+			if t.Kind() == reflect.Func {
 				// one kind per such type
 				return i + 1
 			}
